@@ -181,6 +181,18 @@ impl Stream for C11 {
                 }
             }
             ensure_ids(&mut root, &mut counter);
+            // static separators (docgen only makes them for objects without id, and here every object has one)
+            fn separators(rng: &mut Rng, o: &mut Obj, n: &mut usize) {
+                if o.class == "QAction" && o.children.is_empty() && o.bindings.is_empty() && rng.chance(1, 4) {
+                    o.bindings.push(("separator".into(), "true".into()));
+                    *n += 1;
+                }
+                for c in &mut o.children {
+                    separators(rng, c, n);
+                }
+            }
+            let mut n_sep = 0;
+            separators(&mut rng, &mut root, &mut n_sep);
             let mut labels = vec![format!("objects{}", (root.count() / 5) * 5), format!("depth{}", root.depth())];
             if illegal {
                 labels.push("illegal".into());
@@ -237,19 +249,62 @@ impl Stream for C11 {
                     add_actions(&mut rng, &mut root, &acts);
                 }
             }
+            if n_sep > 0 {
+                labels.push("static-separators".into());
+            }
             let snapshot = root.clone();
             let req = encode(&root, &snapshot);
-            cases.push(Case { kind: "model", labels: labels.clone(), request: node("formtree", vec![req.clone()]) });
-            cases.push(Case { kind: "spec", labels, request: node("spec-formtree", vec![req]) });
+            // the explicit lists as written (the tree carries them resolved: a separator's id is not recoverable from it)
+            let lists = node(
+                "lists",
+                snapshot
+                    .pre_order()
+                    .into_iter()
+                    .filter_map(|o| {
+                        let (_, rhs) = o.bindings.iter().find(|(l, _)| l == "actions")?;
+                        let mut v = vec![st(o.id.clone().unwrap_or_default())];
+                        v.extend(rhs.trim_start_matches('[').trim_end_matches(']').split(',').map(|x| x.trim()).filter(|x| !x.is_empty()).map(st));
+                        Some(list(v))
+                    })
+                    .collect(),
+            );
+            cases.push(Case { kind: "model", labels: labels.clone(), request: node("formtree", vec![req.clone(), lists.clone()]) });
+            cases.push(Case { kind: "spec", labels, request: node("spec-formtree", vec![req, lists]) });
+        }
+        // explicit lists on objects WITHOUT id (their element name is generated) with references that are not plain ids:
+        // the object's own `menuAction()`, another menu's, static separators, tab widgets as owners
+        let m = if thorough { 6_000 } else { 400 };
+        for k in 0..m {
+            cases.push(Case { kind: "oracle", labels: vec!["explicit-list-anonymous-owner".into()], request: node("c11-anon-list", vec![num(seed as usize % 1_000_000), num(k)]) });
         }
         cases
     }
 
     fn answer(&self, req: &Sexp) -> Sexp {
-        let (_, args) = req.as_node().expect("request node");
+        let (tag, args) = req.as_node().expect("request node");
+        if tag == "c11-anon-list" {
+            return anon_list(&self.tm, args[0].as_usize().unwrap() as u64, args[1].as_usize().unwrap() as u64);
+        }
         let mut root = decode(&args[0]);
         let snapshot = root.clone();
-        restore_actions(&args[0], &mut root, &snapshot);
+        match args.get(1).and_then(|l| l.as_node()) {
+            Some(("lists", ls)) => {
+                fn put(o: &mut Obj, id: &str, rhs: &str) {
+                    if o.id.as_deref() == Some(id) {
+                        o.bindings.push(("actions".into(), rhs.to_owned()));
+                    }
+                    for c in &mut o.children {
+                        put(c, id, rhs);
+                    }
+                }
+                for l in ls {
+                    let l = l.as_list().unwrap();
+                    let entries: Vec<&str> = l[1..].iter().map(|x| x.as_str().unwrap()).collect();
+                    put(&mut root, l[0].as_str().unwrap(), &format!("[{}]", entries.join(", ")));
+                }
+            }
+            _ => restore_actions(&args[0], &mut root, &snapshot), // requests recorded before the lists were added
+        }
         let src = root.to_qml();
         let t = env::translate(&self.tm, &src, "MyType", Mode::Generate);
         if t.syntax_errors > 0 {
@@ -291,7 +346,11 @@ fn mutate_illegal(rng: &mut Rng, root: &mut Obj) {
                 1 => {
                     // child under an action / spacer
                     let mut a = Obj::new(if rng.chance(1, 2) { "QAction" } else { "QSpacerItem" }).with_id("illegalParent");
-                    a.children.push(Obj::new("QLabel").with_id("illegalChild"));
+                    // also below a STATIC SEPARATOR (which has no element of its own) and with an action as the child
+                    if a.class == "QAction" && rng.chance(1, 2) {
+                        a.bindings.push(("separator".into(), "true".into()));
+                    }
+                    a.children.push(Obj::new(if rng.chance(1, 3) { "QAction" } else { "QLabel" }).with_id("illegalChild"));
                     o.children.push(a);
                 }
                 2 => o.children.push(Obj::new("QSpacerItem").with_id("straySpacer")),
@@ -331,4 +390,89 @@ fn add_actions(rng: &mut Rng, o: &mut Obj, acts: &[(String, bool)]) {
     for c in &mut o.children {
         add_actions(rng, c, acts);
     }
+}
+
+/// One document: a root widget with 1-2 owners that have NO id (QMenu, QTabWidget, QToolBar-like QWidget) and an explicit
+/// `actions` list mixing action ids, static separators, other menus' `menuAction()` and — for menus — the owner's own
+/// `menuAction()`.  Oracle on the real form: the `<addaction>` children of each owner are exactly the listed entries in
+/// list order (a separator entry is `separator`, a menu entry the menu's name, the own entry the owner's generated name),
+/// and every listed object is still declared exactly once.
+fn anon_list(tm: &TypeMap, seed: u64, k: u64) -> Sexp {
+    let mut rng = Rng::fork(seed, "c11-anon-list", k);
+    let n_owners = 1 + rng.below(2);
+    let mut text = String::from("import qmluic.QtWidgets\nQWidget {\n    id: top\n");
+    // (owner class, expected entries: Some(name) | None = the owner's own name, declared ids)
+    let mut owners: Vec<(&str, Vec<Option<String>>, Vec<String>)> = vec![];
+    for w in 0..n_owners {
+        let class = *rng.pick(&["QMenu", "QMenu", "QTabWidget", "QWidget", "QToolButton"]);
+        let mut kids = String::new();
+        let mut entries: Vec<(String, Option<String>)> = vec![]; // (source text, expected name)
+        let mut declared = vec![];
+        for i in 0..(1 + rng.below(4)) {
+            match rng.below(3) {
+                0 => {
+                    let id = format!("act{w}_{i}");
+                    kids.push_str(&format!("        QAction {{ id: {id}; text: \"t\" }}\n"));
+                    entries.push((id.clone(), Some(id.clone())));
+                    declared.push(id);
+                }
+                1 => {
+                    let id = format!("sep{w}_{i}");
+                    kids.push_str(&format!("        QAction {{ id: {id}; separator: true }}\n"));
+                    entries.push((id.clone(), Some("separator".into())));
+                }
+                _ => {
+                    let id = format!("sub{w}_{i}");
+                    kids.push_str(&format!("        QMenu {{ id: {id} }}\n"));
+                    entries.push((format!("{id}.menuAction()"), Some(id.clone())));
+                    declared.push(id);
+                }
+            }
+        }
+        if class == "QMenu" && rng.chance(2, 3) {
+            entries.push(("menuAction()".into(), None));
+        }
+        if class == "QTabWidget" {
+            kids.push_str("        QWidget { QTabWidget.title: \"page\" }\n");
+        }
+        rng.shuffle(&mut entries);
+        // an entry may be listed twice
+        if rng.chance(1, 5) {
+            let e = rng.pick(&entries).clone();
+            entries.push(e);
+        }
+        let list: Vec<&str> = entries.iter().map(|e| e.0.as_str()).collect();
+        text.push_str(&format!("    {class} {{\n        actions: [{}]\n{kids}    }}\n", list.join(", ")));
+        owners.push((class, entries.into_iter().map(|e| e.1).collect(), declared));
+    }
+    text.push_str("}\n");
+    let t = env::translate(tm, &text, "MyType", Mode::Generate);
+    let Some(ui) = &t.ui else { return node("fail", vec![st("no form"), st(text)]) };
+    if t.diags.iter().any(|d| d.is_error) {
+        return node("fail", vec![st(format!("rejected: {}", t.diags.iter().filter(|d| d.is_error).map(|d| d.message.clone()).collect::<Vec<_>>().join("; "))), st(text)]);
+    }
+    let doc = xml::parse(ui).expect("well-formed ui");
+    let top = doc.child("widget").expect("root widget");
+    let found: Vec<&xml::Element> = top.children_named("widget").collect();
+    if found.len() != owners.len() {
+        return node("fail", vec![st(format!("{} owners expected below the root, {} widget elements found", owners.len(), found.len())), st(text)]);
+    }
+    for ((class, expected, declared), e) in owners.iter().zip(found) {
+        if e.attr("class") != Some(class) {
+            return node("fail", vec![st(format!("owner order/class changed: expected {class}, found {:?}", e.attr("class"))), st(text)]);
+        }
+        let own = e.attr("name").unwrap_or("").to_owned();
+        let want: Vec<String> = expected.iter().map(|x| x.clone().unwrap_or(own.clone())).collect();
+        let got: Vec<String> = e.children_named("addaction").map(|a| a.attr("name").unwrap_or("").to_owned()).collect();
+        if want != got {
+            return node("fail", vec![st(format!("explicit list of the anonymous {class} `{own}`: expected <addaction> sequence {want:?}, found {got:?}")), st(text)]);
+        }
+        for id in declared {
+            let n = e.elems().filter(|c| (c.name == "action" || c.name == "widget") && c.attr("name") == Some(id.as_str())).count();
+            if n != 1 {
+                return node("fail", vec![st(format!("listed object `{id}` is declared {n} times below its owner")), st(text)]);
+            }
+        }
+    }
+    node("ok", vec![atom("owners"), num(owners.len())])
 }
